@@ -30,8 +30,8 @@ struct TimeCfg { double tini, tau; bool numerics; };
 
 // a node grid and the history through which the solver object comes to hold it
 struct GridSpec { std::string name; int kind; double a, b; std::vector<double> nodes; };   // kind 0 linear, 1 log, 2 user-supplied
-enum GridHistory { GH_VECTOR, GH_NATURAL, GH_AFTER_LIN, GH_AFTER_LOG, GH_AFTER_USER, GH_MOVED_IN, N_GH };
-static const char* GHNAME[] = {"fresh object, Set_xrange(vector)", "fresh object, Set_xrange(a,b,type)", "after Set_xrange(lin) and queries", "after Set_xrange(log) and queries", "after Set_xrange(vector) and queries", "move-assigned from another object over a used one"};
+enum GridHistory { GH_VECTOR, GH_NATURAL, GH_AFTER_LIN, GH_AFTER_LOG, GH_AFTER_USER, GH_MOVED_IN, GH_REINI_FEWER, N_GH };
+static const char* GHNAME[] = {"fresh object, Set_xrange(vector)", "fresh object, Set_xrange(a,b,type)", "after Set_xrange(lin) and queries", "after Set_xrange(log) and queries", "after Set_xrange(vector) and queries", "move-assigned from another object over a used one", "re-initialised with fewer nodes after a wider, longer grid"};
 static void set_grid(Sol& s, const GridSpec& g, bool natural) { if (g.kind == 2 || !natural) s.Set_xrange(g.nodes); else s.Set_xrange(g.a, g.b, g.kind ? "log" : "lin"); }
 static void warm(Sol& s, int d) {   // x-indexed queries on whatever grid the object holds now
   std::vector<double> x = s.Get_xrange(); squids::SQuIDS::expectationValueDBuffer b(d); SU_vector O = mkvec(d, probe(d, 2));
@@ -40,8 +40,10 @@ static void warm(Sol& s, int d) {   // x-indexed queries on whatever grid the ob
 
 static void run_grid(int d, const GridSpec& gs, int hist, const TimeCfg& tc, bool reduced) {
   unsigned nx = (unsigned)gs.nodes.size(), nrho = 2;
-  Sol s(nx, d, nrho, tc.tini);
+  Sol s(hist == GH_REINI_FEWER ? nx + 4 : nx, d, nrho, tc.tini);
   switch (hist) {
+    case GH_REINI_FEWER: { double lo = gs.nodes.front(), hi = gs.nodes.back(), sp = hi - lo; if (gs.kind == 1) s.Set_xrange(lo * 0.5, hi * 50, "log"); else s.Set_xrange(lo - 2 * sp, hi + 3 * sp, "lin"); warm(s, d);
+      s.ini(nx, d, nrho, 1, tc.tini); s.Set_rel_error(1e-10); s.Set_abs_error(1e-10); s.Set_h(1e-3); set_grid(s, gs, true); } break;
     case GH_VECTOR: set_grid(s, gs, false); break;
     case GH_NATURAL: set_grid(s, gs, true); break;
     case GH_AFTER_LIN: s.Set_xrange(-1.5, 6.0, "lin"); warm(s, d); set_grid(s, gs, true); break;
@@ -182,6 +184,35 @@ static void steep_nodes() {
   }
 }
 
+// H0 with a common energy far above its level splittings and an elapsed time long enough for the splittings to matter
+// (the common energy drops out of every expectation value, the splittings do not): all seven overloads against the reference
+static void near_identity_h0() {
+  struct S2 : Sol { double c0, sp; S2(unsigned nx, unsigned dim, double c0_, double sp_) : Sol(nx, dim, 1, 0.0), c0(c0_), sp(sp_) {}
+    std::vector<double> spec(double x) const { std::vector<double> e = levels(d); for (auto& v : e) v = c0 + sp * v * x; return e; }
+    squids::SU_vector H0(double x, unsigned) const override { return mkvec(d, ref::basis(d).proj(ref::diag(spec(x)))); } };
+  const double CFG[][3] = {{1.0, 1e-9, 2e9}, {1e9, 1e-3, 4e3}, {-5.0, 1e-12, 7e11}, {1e3, 1.0, 2.0}};   // common energy, splitting scale, elapsed time
+  for (int d = 2; d <= 6; d++) for (auto& cf : CFG) {
+    std::vector<double> grid = {0.5, 1.5, 4.0};
+    S2 s(3, d, cf[0], cf[1]); s.Set_xrange(grid);
+    for (unsigned ix = 0; ix < 3; ix++) s.setrho(ix, 0, scaled(probe(d, ix), 1 + 0.2 * ix));
+    s.Evolve(cf[2]);
+    double tau = s.Get_t() - s.Get_t_initial(); int np = d * (d - 1) / 2;
+    squids::SQuIDS::expectationValueDBuffer ubuf(d);
+    for (unsigned ix = 0; ix < 3; ix++) for (int w = 0; w < 2; w++) {
+      count("evaluations"); count("near_identity_h0_queries");
+      std::vector<double> opc = w ? probe(d, 2) : unit(d, 1); SU_vector O = mkvec(d, opc);
+      // only the splittings enter: reference with the common energy removed (exactly what the physics says)
+      std::vector<double> e = levels(d); for (auto& v : e) v *= cf[1] * grid[ix];
+      double want = ref_expect(d, s.getrho(ix, 0), opc, e, tau);
+      double tol = (64 + 16 * std::fabs(tau) * (std::fabs(cf[0]) * 4 * ref::EPS + cf[1] * 4 * grid[ix]) * 2 * d) * d * d * ref::EPS * maxabs(s.getrho(ix, 0)) * maxabs(opc) + 16 * std::fabs(tau) * std::fabs(cf[0]) * ref::EPS * d * d * maxabs(s.getrho(ix, 0)) * maxabs(opc);
+      std::vector<bool> a1(np, true), a2(np, true), a3(np, true);
+      double g[7] = {s.GetExpectationValue(O, 0, ix), s.GetExpectationValue(O, 0, ix, 1e300, a1), s.GetExpectationValueD(O, 0, grid[ix]), s.GetExpectationValueD(O, 0, grid[ix], ubuf),
+                     s.GetExpectationValueD(O, 0, grid[ix], 1e300, a2), s.GetExpectationValueD(O, 0, grid[ix], ubuf, 1e300, a3), s.GetExpectationValue(O, 0, ix, INFINITY, a1)};
+      for (int q = 0; q < 7; q++) if (!(std::fabs(g[q] - want) <= tol)) { violation("GetExpectationValue:common-energy-plus-small-splittings:d=" + std::to_string(d), J().i("d", d).num("common_energy", cf[0]).num("splitting", cf[1]).num("elapsed", cf[2]).i("node", ix).i("overload", q).num("got", g[q]).num("want", want).num("tol", tol).done()); break; }
+    }
+  }
+}
+
 // thread-local scratch buffers of the buffer-less overloads: solvers of different dimension queried alternately on one (fresh) thread
 static void scratch_sequences() {
   for (int d1 = 2; d1 <= 6; d1++) for (int d2 = 2; d2 <= 6; d2++) for (int d3 = 2; d3 <= 6; d3++) {
@@ -231,13 +262,14 @@ int main(int argc, char** argv) {
   // every grid through the vector overload and through its natural overload on a fresh object, for every time configuration; the
   // histories that reach the grid on a used object for two time configurations
   for (int d : dims) for (auto& g : grids) for (size_t ti = 0; ti < tcs.size(); ti++) for (int hist = 0; hist < N_GH; hist++) {
-    if (hist == GH_NATURAL && g.kind == 2) continue;
+    if ((hist == GH_NATURAL || hist == GH_REINI_FEWER) && g.kind == 2) continue;   // (the vector overload replaces the whole node vector)
     if (hist >= GH_AFTER_LIN && !(ti == 0 || ti == 2 % tcs.size())) continue;
     if ((caseno++ % ar.nshards) != ar.shard) continue;
     run_grid(d, g, hist, tcs[ti], ar.reduced || hist >= GH_AFTER_LIN);
   }
   if (ar.shard == 0 && !ar.reduced) scratch_sequences();
   if (ar.shard == 0) steep_nodes();
+  if (ar.shard == 0) near_identity_h0();
   finish();
   return 0;
 }
